@@ -72,7 +72,7 @@ func poolSequence(rng *rand.Rand, out *Out, nd *Node, dv *deliverer, u *wallet.K
 		}
 		nd.Fill(b)
 		st := readPlasmaState(nd, b)
-		base, baseOk := refBase(b, st.found)
+		base, baseOk := refBase(b, regimeAt(nd, b.MomentumAcknowledged))
 		if !baseOk {
 			continue
 		}
